@@ -125,6 +125,7 @@ type Thread struct {
 	done    bool
 	parked  bool
 	exiting bool
+	Daemon  bool // timers / tickers: the execution is complete when every other thread has finished
 
 	pendKind    Kind
 	pendObj     unsafe.Pointer
@@ -189,6 +190,8 @@ type Exec struct {
 	ctrlVC   VC
 	enabledBuf []int
 	inStep     int
+	daemonsOnly bool
+	Clock      int64 // abstract time in nanoseconds (vtime); advanced by ticker / timer threads only
 }
 
 func NewExec() *Exec {
@@ -254,6 +257,15 @@ func (t *Thread) main() {
 	next.wake <- struct{}{}
 }
 
+func (x *Exec) complete() bool {
+	for _, u := range x.Threads {
+		if !u.done && !u.Daemon {
+			return false
+		}
+	}
+	return true
+}
+
 func (x *Exec) wakeCtrl() {
 	select {
 	case x.ctrl <- struct{}{}:
@@ -291,6 +303,23 @@ func (x *Exec) Run() {
 		x.ctrlVC.join(&t.vc)
 	}
 	x.aborting = x.Fail != nil || x.Pruned
+}
+
+// GoDaemon starts a virtual thread that does not keep the execution alive (timers, tickers).
+func GoDaemon(f func()) {
+	x := X
+	if !Controlled || x == nil {
+		go f()
+		return
+	}
+	if x.aborting {
+		return
+	}
+	n := len(x.Threads)
+	Go(f)
+	if len(x.Threads) > n {
+		x.Threads[len(x.Threads)-1].Daemon = true
+	}
 }
 
 func (t *Thread) isExited() bool {
@@ -353,6 +382,13 @@ func Point(k Kind, obj unsafe.Pointer, en func() bool) {
 		t.exitNow()
 	}
 	if next == nil {
+		if x.complete() {
+			// a daemon reached a scheduling point after the last regular thread finished
+			x.aborting = true
+			x.daemonsOnly = true
+			x.wakeCtrl()
+			t.exitNow()
+		}
 		// t itself is unfinished and nothing is enabled
 		x.fail("deadlock", "deadlock: no thread can make progress\n"+x.describeThreads())
 		x.abortFrom()
@@ -408,10 +444,18 @@ func (x *Exec) pick(cur *Thread) *Thread {
 	curOK := false
 	anyUnfinished := false
 	for _, u := range x.Threads {
+		if !u.done && !u.Daemon {
+			anyUnfinished = true
+		}
+	}
+	if !anyUnfinished {
+		x.enabledBuf = en
+		return nil // only daemons (if anything) are left: the execution is complete
+	}
+	for _, u := range x.Threads {
 		if u.done {
 			continue
 		}
-		anyUnfinished = true
 		if blocked[u.ID] {
 			continue
 		}
